@@ -2,16 +2,21 @@
 import random
 from .. import core
 
-MODULES = ['DsdVerif.Props.C17']
-GEN_FILES = ['IupacTables']
+MODULES = ['DsdVerif.Props.C17', 'DsdVerif.Props.PyIupac']
+GEN_FILES = ['IupacTables', 'PyIupac']
 THEOREMS = ['Dsd.Iupac.' + t for t in [
     'wc_keys', 'wobble_keys', 'wc_exact', 'wc_involution', 'wobble_exact', 'rna_is_dna_TU', 'bin_exact',
     'bin_zero_empty', 'mapSeq_length', 'mapSeq_pointwise', 'mapSeq_none_iff', 'mapSeq_reverse',
     'reverse_variants', 'wc_sequence_exact', 'wobble_sequence_exact', 'meet_exact', 'meetSpec_none_iff',
-    'add_constraints_spec', 'add_constraints_error_iff']]
+    'add_constraints_spec', 'add_constraints_error_iff']] + ['Dsd.PyIupac.' + t for t in [
+    # the five sequence functions as written in iupac_utils.py (Gen/PyIupac.lean, regenerated on every run) equal the model
+    'py_complement_eq', 'py_wc_complement_eq', 'py_reverse_complement_eq', 'py_reverse_wc_complement_eq', 'py_add_constraints_eq',
+    'addConstraints_returns', 'py_complement_error_kind', 'py_wc_complement_raises_iff', 'py_reverse_wc_is_reversed_wc',
+    'py_reverse_is_reversed', 'py_wc_complement_exact', 'py_complement_exact', 'py_add_constraints_spec', 'py_add_constraints_length']]
 ASSUMPTIONS = [
     'tables are transcribed from iupac_utils.py by translator/gen.py on every run (Gen/IupacTables.lean)',
-    'the five sequence functions are hand-modelled (Model/Iupac.lean) and tied by the correspondence stream',
+    'the five sequence functions are hand-modelled (Model/Iupac.lean) AND transcribed statement by statement from iupac_utils.py '
+    '(Gen/PyIupac.lean, translator/pyfunc.py); Props/PyIupac.lean proves the two equal for every input; both are run against the code',
     'Python str/dict semantics modelled: dict display keeps the last duplicate key; KeyError on a missing key',
 ]
 
@@ -178,6 +183,9 @@ def run(res, proof):
             for r in l.split()[1:]:
                 res.model_failing.append('%s %s' % (mat, r))
         core.compare_streams(res, 'iupac', lines, impl, model[:-2])
+        # the source-derived functions (Gen/PyIupac.lean) on the same inputs
+        plines = ['py' + l for l in lines]
+        core.compare_streams(res, 'iupac.source-derived', plines, impl, core.run_driver(plines))
     except core.DriverBroken as e:
         proof.problem('driver', str(e))
     # oracle on the real code
@@ -282,8 +290,9 @@ MANIFEST = {
             'Lean kernel over tables regenerated from iupac_utils.py on every run; sequence-level theorems (mapSeq_pointwise, '
             'mapSeq_reverse, reverse_variants, wc/wobble_sequence_exact, add_constraints_spec, add_constraints_error_iff) hold for '
             'sequences of any length by induction on the hand model, which is tied to the five Python functions by a correspondence '
-            'stream (all codes, all code pairs, random sequences).',
-    'note': 'Trusted: Lean kernel; translator/gen.py transcribes the dict/list literals; the sequence functions are hand-modelled '
-            '(Model/Iupac.lean) and only tied by differential testing; axioms limited to propext, Classical.choice, Quot.sound.',
-    'technique': 'Lean 4 theorems over tables regenerated from source (decide) + induction on hand model; correspondence check',
+            'stream (all codes, all code pairs, random sequences).'
+            " STATEMENT LEVEL, FROM THE SOURCE: complement, wc_complement, reverse_complement, reverse_wc_complement and add_constraints are transcribed statement by statement from iupac_utils.py on every run (Gen/PyIupac.lean; the module-level tables are the regenerated Gen/IupacTables constants) and proved equal to the model for every sequence and material (py_*_eq), so the set-exactness theorems hold of the code as written (py_wc_complement_exact, py_complement_exact, py_reverse_wc_is_reversed_wc, py_add_constraints_spec, py_add_constraints_length, addConstraints_returns: it never returns None); the reader's use of reverse_wc_complement is checked on the real code.",
+    'note': 'Trusted: Lean kernel; translator/gen.py transcribes the dict/list literals, translator/pyfunc.py the five functions '
+            '(its reading of Python is validated against CPython by the source-derived stream); axioms limited to propext, Classical.choice, Quot.sound.',
+    'technique': 'Lean 4 theorems over tables AND functions regenerated from source (decide; equality proofs by induction) + induction on the hand model; correspondence check',
 }
